@@ -860,7 +860,7 @@ impl Property for C17 {
         }
     }
     fn rule(&self) -> &'static str {
-        "one case = generated project in which an antichain of 2..6 mutually independent build targets (none reachable from another) carries rendezvous-gated scripts: a member's exit event is enabled only once every member has started; unrelated never-ending builds and services run alongside. The run can complete iff all members overlap; a stall with an unstarted member whose dependencies are all ready is the violation. distinct_nontrivial = distinct order hashes among runs where at least two members were in progress together"
+        "one case = generated project in which an antichain of 2..6 mutually independent build targets (none reachable from another) carries rendezvous-gated scripts: a member's exit event is enabled only once every member has started; unrelated never-ending builds and services run alongside. The run can complete iff all members overlap; a stall with an unstarted member whose dependencies are all ready is the violation. A fifth of the cases run with --watch, members watching several directories that are written to while targets are still being launched. distinct_nontrivial = distinct order hashes among runs where at least two members were in progress together"
     }
     fn generate(&self, rng: &mut Rng, case_no: u64) -> Scenario {
         let mut sc = gen::gen_graph(rng, &GraphOpts { max_n: 9, ..Default::default() });
@@ -951,7 +951,47 @@ impl Property for C17 {
                 }
             }
         }
+        // a fifth of the ordinary cases run in watch mode: some members declare several input
+        // directories under one extension filter (one watcher, several registrations), and files
+        // in them are written while the targets are still being launched. Watching is per target
+        // and must not hold up the launch of anybody else.
+        let watch_variant = case_no % 60 != 7 && cmd_ids.len() < 2 && rng.chance(20);
+        let mut watched_files: Vec<String> = vec![];
+        if watch_variant {
+            let mut picked = anti.clone();
+            rng.shuffle(&mut picked);
+            picked.truncate(rng.range(1, 3));
+            for t in &picked {
+                let dir = sc.projects[t.0].dir.clone();
+                let k = rng.range(2, 4);
+                let mut paths = vec![];
+                for j in 0..k {
+                    let d = format!("wsrc/{}/d{}", t.1, j);
+                    let f = format!("{}/{}/f.txt", dir, d);
+                    sc.files.push(FileSpec { path: f.clone(), kind: FileKind::File(format!("watched input of {} v0\n", t.1)) });
+                    watched_files.push(f);
+                    paths.push(d);
+                }
+                if let Some(tt) = sc.projects[t.0].targets.iter_mut().find(|x| x.name == t.1) {
+                    tt.input.push(Res::Paths { paths, extensions: None });
+                }
+            }
+        }
         let mut inv = standard_invocation(rng, &sc, args);
+        if watch_variant {
+            inv.args.insert(0, "--watch".into());
+            for e in 0..rng.range(1, 3) {
+                let mut ops = vec![];
+                for o in 0..rng.range(2, 3) {
+                    ops.push(simrt::plan::FsOp::Write { path: rng.pick(&watched_files).clone(), content: format!("edit {}.{} during launch\n", e, o) });
+                }
+                let gate = if rng.chance(40) { simrt::plan::Gate::Now } else { simrt::plan::Gate::Step(rng.below(60) as u64) };
+                inv.plan.events.push(simrt::plan::PlanEvent { id: format!("w{}", e), kind: simrt::plan::PlanEventKind::Fs { ops }, gate });
+            }
+            if !inv.plan.events.iter().any(|e| matches!(e.kind, simrt::plan::PlanEventKind::Signal)) {
+                inv.plan.events.push(gen::signal_at_idle());
+            }
+        }
         if cmd_ids.len() >= 2 {
             inv.plan.gates.insert("C".into(), cmd_ids);
             inv.plan.knobs.workers = rng.range(1, 3) as u32;
